@@ -1113,9 +1113,14 @@ def content(m, game):
     return dict(bpms=bp, svs=sv, hits=hits, holds=holds)
 
 
-def jc_of(ct, game, override):
-    """model / spec input of one call: the chart's current content + the override of that call"""
+def jc_of(ct, game, override, drv):
+    """model / spec input of one call: the chart's current content + the override of that call; first / last
+    object are `Chart.bounds` of the Lean model (least / greatest offset of what m.stack() ranges over)"""
     ts = [t for t, _ in ct["bpms"]] + list(ct["hits"]) + [t for t, _ in ct["holds"]] + [t for t, _ in ct["svs"]]
+    b = drv.call("c19.bounds", has_sv=game in SV_GAMES, bpms=[[R(t), R(x)] for t, x in ct["bpms"]],
+                 svs=[[R(t), R(x)] for t, x in ct["svs"]], notes=[R(t) for t in list(ct["hits"]) + [t for t, _ in ct["holds"]]])
+    if "ok" not in b or [F(b["ok"][0]), F(b["ok"][1])] != [min(ts), max(ts)]:
+        raise AssertionError(f"Chart.bounds {b} vs {min(ts)}, {max(ts)}")
     small = all(t.denominator <= 8 and abs(t) < 2 ** 30 for t in
                 [t for t, _ in ct["bpms"]] + list(ct["hits"]) + [t for t, _ in ct["holds"]] + [t for t, _ in ct["svs"]])
     return dict(bpms=[[R(t), R(b)] for t, b in ct["bpms"]], svs=[[R(t), R(x)] for t, x in ct["svs"]],
@@ -1181,7 +1186,7 @@ def combine(results, tags):
 
 def judge(claim, m, game, override, drv):
     ct = content(m, game)
-    jc = jc_of(ct, game, override)
+    jc = jc_of(ct, game, override, drv)
     tags = []
     ts = sorted(F(t) for t, _ in jc["bpms"])
     if F(jc["omax"]) == 0:
